@@ -1,0 +1,80 @@
+//! Verification hook H5, compiled only with `--cfg csl_verif` (never in normal builds).
+//!
+//! Oracle log for the transaction builder's balancing code: while recording is switched on, the
+//! size- and fee-dependent quantities that `add_change_if_needed*`, `add_output`, `fee_for_output`,
+//! `build` and `build_tx` compute are appended, in the order in which they are computed, to a
+//! thread-local list of `(site, answer)` pairs. Nothing is logged, and nothing else changes, while
+//! recording is off (the default).
+//!
+//! Sites:
+//!   b'C'  entry of `add_change_if_needed_with_optional_script_and_datum` (answer 0; a marker)
+//!   b'F'  result of the private `min_fee(&TransactionBuilder)` (None = it returned an error)
+//!   b'A'  result of `MinOutputAdaCalculator::calculate_ada` (None = error)
+//!   b'S'  a value-size test against `max_value_size` (1 = too large, 0 = fits)
+//!   b'T'  the transaction-size test of `TransactionBuilder::build` (1 = too large, 0 = fits)
+use std::cell::RefCell;
+
+thread_local! {
+    static LOG: RefCell<Option<Vec<(u8, Option<u64>)>>> = RefCell::new(None);
+    static INSIDE: RefCell<Vec<u8>> = RefCell::new(Vec::new());
+}
+
+/// Start recording on this thread (clears anything recorded before).
+pub fn verif_oracle_start() {
+    LOG.with(|l| *l.borrow_mut() = Some(Vec::new()));
+    INSIDE.with(|i| i.borrow_mut().clear());
+}
+
+/// Stop recording and return what was recorded since `verif_oracle_start`.
+pub fn verif_oracle_take() -> Vec<(u8, Option<u64>)> {
+    INSIDE.with(|i| i.borrow_mut().clear());
+    LOG.with(|l| l.borrow_mut().take()).unwrap_or_default()
+}
+
+/// Append one answer (no-op while recording is off, and for `b'T'` inside a recorded `min_fee`,
+/// whose own answer already accounts for the size test of the `build` it runs).
+pub fn log(site: u8, answer: Option<u64>) {
+    if site == b'T' && INSIDE.with(|i| i.borrow().contains(&b'F')) {
+        return;
+    }
+    LOG.with(|l| {
+        if let Some(v) = l.borrow_mut().as_mut() {
+            v.push((site, answer));
+        }
+    });
+}
+
+/// Used by a function that logs its own result by calling itself once more: true exactly when
+/// recording is on and the function is not already running for `site` on this thread (in which
+/// case the caller must run the nested call and then `leave`).
+pub fn enter(site: u8) -> bool {
+    let on = LOG.with(|l| l.borrow().is_some());
+    if !on {
+        return false;
+    }
+    INSIDE.with(|i| {
+        let mut i = i.borrow_mut();
+        if i.contains(&site) {
+            false
+        } else {
+            i.push(site);
+            true
+        }
+    })
+}
+
+/// Counterpart of `enter`: logs the nested call's answer.
+pub fn leave(site: u8, answer: Option<u64>) {
+    INSIDE.with(|i| i.borrow_mut().retain(|s| *s != site));
+    log(site, answer);
+}
+
+/// The outputs currently held by a transaction builder (not otherwise observable before a fee is set).
+pub fn verif_builder_outputs(tx_builder: &crate::TransactionBuilder) -> crate::TransactionOutputs {
+    tx_builder.outputs.clone()
+}
+
+/// The inputs currently held by a transaction builder.
+pub fn verif_builder_inputs(tx_builder: &crate::TransactionBuilder) -> crate::TransactionInputs {
+    tx_builder.inputs.inputs()
+}
